@@ -912,9 +912,10 @@ class Pipeline:
             if arg in self.defaults:
                 pipeline_default = self.defaults[arg]
                 if arg in defaults:
-                    assert defaults[arg] == pipeline_default
+                    # Same value as `pipeline_default` (validated in `Pipeline.defaults`); not
+                    # compared here because `==` is ambiguous for arrays and False for NaN.
                     continue
-                defaults[arg] = self.defaults[arg]
+                defaults[arg] = pipeline_default
         self._internal_cache.func_defaults[func.output_name] = defaults
         return defaults
 
